@@ -56,7 +56,19 @@ type mode struct {
 	Name   string
 	Status int
 	Make   func(c config) vgirpc.AuthenticateFunc
+	// (ctx, err) rejections: the authenticator hands back WHO it identified
+	// together with the error ("identified, but revoked"). Twin is the index of
+	// the mode returning (nil, same err); Via says how the pair reaches the
+	// server; Extra headers are added so the library wrapper gets that far.
+	WithCtx bool
+	Via     string
+	Twin    int
+	Extra   http.Header
 }
+
+// curIdent is the identity a (ctx, err) rejection returns alongside its
+// error: the principal the replayed request's tokens were sealed for.
+var curIdent *vgirpc.AuthContext
 
 type wrapErr struct{ inner error }
 
@@ -78,28 +90,28 @@ func failing(err error) func(config) vgirpc.AuthenticateFunc {
 
 func modes() []mode {
 	ms := []mode{
-		{"rpc-value", 401, failing(&vgirpc.RpcError{Type: "ValueError", Message: "no"})},
-		{"rpc-permission", 401, failing(&vgirpc.RpcError{Type: "PermissionError", Message: "no"})},
-		{"authfailure-wrapped-fmt", 401, failing(fmt.Errorf("ctx: %w", vgirpc.NewAuthFailure(vgirpc.AuthReasonExpiredCredential, "old")))},
-		{"authfailure-wrapped-custom", 401, failing(&wrapErr{&wrapErr{vgirpc.NewAuthFailure(vgirpc.AuthReasonInvalidCredential, "")}})},
-		{"unavailable", 503, failing(vgirpc.NewAuthUnavailable("idp down"))},
-		{"unavailable-wrapped", 503, failing(fmt.Errorf("ctx: %w", &vgirpc.AuthUnavailableError{Detail: "x", RetryAfter: 9}))},
-		{"unavailable-joined", 503, failing(errors.Join(errors.New("a"), vgirpc.NewAuthUnavailable("b")))},
-		{"plain-error", 500, failing(errors.New("db exploded"))},
-		{"rpc-runtime", 500, failing(&vgirpc.RpcError{Type: "RuntimeError", Message: "x"})},
-		{"rpc-value-wrapped", 500, failing(fmt.Errorf("ctx: %w", &vgirpc.RpcError{Type: "ValueError", Message: "x"}))},
-		{"bearer-static", 401, func(config) vgirpc.AuthenticateFunc {
+		{Name: "rpc-value", Status: 401, Make: failing(&vgirpc.RpcError{Type: "ValueError", Message: "no"})},
+		{Name: "rpc-permission", Status: 401, Make: failing(&vgirpc.RpcError{Type: "PermissionError", Message: "no"})},
+		{Name: "authfailure-wrapped-fmt", Status: 401, Make: failing(fmt.Errorf("ctx: %w", vgirpc.NewAuthFailure(vgirpc.AuthReasonExpiredCredential, "old")))},
+		{Name: "authfailure-wrapped-custom", Status: 401, Make: failing(&wrapErr{&wrapErr{vgirpc.NewAuthFailure(vgirpc.AuthReasonInvalidCredential, "")}})},
+		{Name: "unavailable", Status: 503, Make: failing(vgirpc.NewAuthUnavailable("idp down"))},
+		{Name: "unavailable-wrapped", Status: 503, Make: failing(fmt.Errorf("ctx: %w", &vgirpc.AuthUnavailableError{Detail: "x", RetryAfter: 9}))},
+		{Name: "unavailable-joined", Status: 503, Make: failing(errors.Join(errors.New("a"), vgirpc.NewAuthUnavailable("b")))},
+		{Name: "plain-error", Status: 500, Make: failing(errors.New("db exploded"))},
+		{Name: "rpc-runtime", Status: 500, Make: failing(&vgirpc.RpcError{Type: "RuntimeError", Message: "x"})},
+		{Name: "rpc-value-wrapped", Status: 500, Make: failing(fmt.Errorf("ctx: %w", &vgirpc.RpcError{Type: "ValueError", Message: "x"}))},
+		{Name: "bearer-static", Status: 401, Make: func(config) vgirpc.AuthenticateFunc {
 			return vgirpc.BearerAuthenticateStatic(map[string]*vgirpc.AuthContext{"s3cret": {Domain: "bearer", Authenticated: true, Principal: "proxy"}})
 		}},
-		{"xfcc", 401, func(config) vgirpc.AuthenticateFunc {
+		{Name: "xfcc", Status: 401, Make: func(config) vgirpc.AuthenticateFunc {
 			f, _ := vgirpc.MtlsAuthenticateXfcc(vgirpc.MtlsAuthenticateXfccConfig{})
 			return f
 		}},
-		{"chain-bearer-xfcc", 401, func(config) vgirpc.AuthenticateFunc {
+		{Name: "chain-bearer-xfcc", Status: 401, Make: func(config) vgirpc.AuthenticateFunc {
 			f, _ := vgirpc.MtlsAuthenticateXfcc(vgirpc.MtlsAuthenticateXfccConfig{})
 			return vgirpc.ChainAuthenticate(vgirpc.BearerAuthenticateStatic(map[string]*vgirpc.AuthContext{"s3cret": {Authenticated: true, Principal: "proxy"}}), f)
 		}},
-		{"proof-gate-require", 401, func(config) vgirpc.AuthenticateFunc {
+		{Name: "proof-gate-require", Status: 401, Make: func(config) vgirpc.AuthenticateFunc {
 			f, err := vgirpc.ProofAuthenticate(vgirpc.ProofConfig{Mode: vgirpc.ProofModeRequire, OriginID: "worker-1", SkewSeconds: 30,
 				Secrets: map[string]vgirpc.ProofSecret{"k1": {Secret: []byte("0123456789abcdef0123456789abcdef"), Label: "p"}}},
 				func(*http.Request) (*vgirpc.AuthContext, error) {
@@ -111,13 +123,58 @@ func modes() []mode {
 			return f
 		}},
 	}
+	type kind struct {
+		name   string
+		status int
+		err    error
+	}
+	kinds := []kind{
+		{"rpc-value", 401, &vgirpc.RpcError{Type: "ValueError", Message: "no"}},
+		{"rpc-permission", 401, &vgirpc.RpcError{Type: "PermissionError", Message: "no"}},
+		{"authfailure-wrapped-fmt", 401, fmt.Errorf("ctx: %w", vgirpc.NewAuthFailure(vgirpc.AuthReasonExpiredCredential, "old"))},
+		{"unavailable", 503, vgirpc.NewAuthUnavailable("idp down")},
+		{"unavailable-wrapped", 503, fmt.Errorf("ctx: %w", &vgirpc.AuthUnavailableError{Detail: "x", RetryAfter: 9})},
+		{"plain-error", 500, errors.New("db exploded")},
+		{"rpc-runtime", 500, &vgirpc.RpcError{Type: "RuntimeError", Message: "x"}},
+	}
 	for _, reason := range []vgirpc.AuthReason{vgirpc.AuthReasonMissingCredential, vgirpc.AuthReasonInvalidCredential, vgirpc.AuthReasonExpiredCredential,
 		vgirpc.AuthReasonInsufficientScope, vgirpc.AuthReasonProxyRequired, vgirpc.AuthReasonUnauthorized, ""} {
 		name := string(reason)
 		if name == "" {
 			name = "empty"
 		}
-		ms = append(ms, mode{"authfailure-" + name, 401, failing(vgirpc.NewAuthFailure(reason, "d"))})
+		ms = append(ms, mode{Name: "authfailure-" + name, Status: 401, Make: failing(vgirpc.NewAuthFailure(reason, "d"))})
+		kinds = append(kinds, kind{"authfailure-" + name, 401, vgirpc.NewAuthFailure(reason, "d")})
+	}
+	// (ctx, err) rejections for every kind, three ways:
+	//   direct            the AuthenticateFunc itself returns (ident, err)
+	//   bearer-validate   BearerAuthenticate(validate) with validate returning (ident, err)
+	//   cookie            CookieAuthenticate(BearerAuthenticate(validate), "_vgi_auth")
+	twinOf := func(name string) int {
+		for i, m := range ms {
+			if m.Name == name {
+				return i
+			}
+		}
+		panic("no nil-ctx twin for " + name)
+	}
+	for _, k := range kinds {
+		k := k
+		validate := func(string) (*vgirpc.AuthContext, error) { return curIdent, k.err }
+		tw := twinOf(k.name)
+		ms = append(ms,
+			mode{Name: k.name + "+ctx", Status: k.status, WithCtx: true, Via: "direct", Twin: tw,
+				Make: func(config) vgirpc.AuthenticateFunc {
+					return func(*http.Request) (*vgirpc.AuthContext, error) { return curIdent, k.err }
+				}},
+			mode{Name: k.name + "+ctx-via-bearer", Status: k.status, WithCtx: true, Via: "bearer-validate", Twin: tw,
+				Extra: http.Header{"Authorization": {"Bearer live-but-revoked"}},
+				Make:  func(config) vgirpc.AuthenticateFunc { return vgirpc.BearerAuthenticate(validate) }},
+			mode{Name: k.name + "+ctx-via-cookie", Status: k.status, WithCtx: true, Via: "cookie", Twin: tw,
+				Extra: http.Header{"Cookie": {"_vgi_auth=live-but-revoked"}},
+				Make: func(config) vgirpc.AuthenticateFunc {
+					return vgirpc.CookieAuthenticate(vgirpc.BearerAuthenticate(validate), "_vgi_auth")
+				}})
 	}
 	return ms
 }
@@ -610,18 +667,27 @@ func main() {
 	slog.SetDefault(slog.New(slog.NewTextHandler(io.Discard, nil)))
 	r := mon.Start("C22")
 	defer r.Finish()
-	r.SetRule("configurations = prefix x feature subsets (first six: all-on / all-off per prefix, then random); per configuration: requests harvested in accept mode through the library's HttpClient (anonymous and authenticated identity) + route enumeration (names x tails x 7 methods, case/encoding/dot-segment/outside-prefix variants) replayed under every rejection mode; distinct = (method, route template, rejection mode)")
+	r.SetRule("configurations = prefix x feature subsets (first six: all-on / all-off per prefix, then random); per configuration: requests harvested in accept mode through the library's HttpClient (anonymous and authenticated identity) + route enumeration (names x tails x 7 methods, case/encoding/dot-segment/outside-prefix variants) replayed under every rejection mode — each error kind both as (nil, err) and as (ctx, err) with ctx = the identity the request's tokens were sealed for, returned directly, through BearerAuthenticate(validate) and through CookieAuthenticate; a (ctx, err) answer must equal the (nil, err) answer byte for byte; distinct = (method, route template, rejection mode)")
 	r.Require("harvest-work:unary", "harvest-work:stream-init", "harvest-work:producer-continuation", "harvest-work:exchange-continuation",
 		"harvest-work:stream-cancel", "harvest-work:describe", "harvest-work:upload-url", "harvest-work:introspect", "harvest-work:external-pointer",
 		"harvest-work:session-open", "harvest-work:session-resume",
 		"reject:401", "reject:503", "reject:500", "authenticator-consulted",
 		"exempt-reachable:preflight", "exempt-reachable:health", "exempt-reachable:pages", "exempt-reachable:oauth-metadata",
 		"exempt-reachable:custom", "exempt-reachable:session-delete", "exempt-reachable:login",
-		"feature:pkce", "feature:hook", "feature:rehydrate", "prefix:", "prefix:/vgi", "prefix:/a/b")
+		"feature:pkce", "feature:hook", "feature:rehydrate", "prefix:", "prefix:/vgi", "prefix:/a/b",
+		// rejections of the shape (non-nil ctx, err): without them the run says nothing about
+		// a gate that trusts the returned context
+		"ctx-reject:401", "ctx-reject:503", "ctx-reject:500", "ctx-reject:body-compared",
+		"ctx-reject:via-direct", "ctx-reject:via-bearer-validate", "ctx-reject:via-cookie",
+		"ctx-reject:ident-anonymous", "ctx-reject:ident-authenticated",
+		"ctx-reject:prefix:", "ctx-reject:prefix:/vgi", "ctx-reject:prefix:/a/b",
+		"ctx-reject-route:unary", "ctx-reject-route:describe", "ctx-reject-route:stream-init", "ctx-reject-route:producer-continuation",
+		"ctx-reject-route:exchange-continuation", "ctx-reject-route:stream-cancel", "ctx-reject-route:upload-url", "ctx-reject-route:introspect",
+		"ctx-reject-route:external-pointer", "ctx-reject-route:session-resume", "ctx-reject-route:session-open")
 	r.Assume("svc events come from instrumented user callbacks only (handlers, states, UploadURLProvider, TokenResolver, RehydrateFunc, DispatchHook, ExternalStorage, external fetch transport, session Close); work the library does internally without calling user code is visible only through the status/body checks")
 	r.Assume("requests are delivered in-process through HttpServer.ServeHTTP with net/http/httptest; PKCE login routes are exercised with an unreachable loopback authorization server")
 
-	nCfg := r.N(40, 1500)
+	nCfg := r.N(40, 1000)
 	ms := modes()
 	for ci := 0; ci < nCfg; ci++ {
 		rng := r.Rand(uint64(ci))
@@ -663,17 +729,76 @@ func main() {
 				return l
 			}()})
 		}
-		for mi, md := range ms {
-			u.current = logged(md.Name, md.Make(c))
-			for _, h := range hv {
-				u.judge(r, md, h.Label, wf.Replay(u.h, h.Ex))
+		anon := vgirpc.Anonymous()
+		proxy := &vgirpc.AuthContext{Domain: "t", Authenticated: true, Principal: "proxy"}
+		identFor := func(label string) *vgirpc.AuthContext {
+			if strings.HasPrefix(label, "anon:") {
+				return anon
 			}
-			// Full enumeration under three modes per configuration (rotating so
-			// every mode meets every probe across configurations), always under
-			// the first mode of each status class for the first configurations.
-			if ci < 3 || mi%len(ms) == ci%len(ms) || mi == (ci+5)%len(ms) || mi == (ci+11)%len(ms) {
+			return proxy
+		}
+		for mi, md := range ms {
+			auth := logged(md.Name, md.Make(c))
+			var twinAuth vgirpc.AuthenticateFunc
+			if md.WithCtx {
+				twinAuth = logged(ms[md.Twin].Name, ms[md.Twin].Make(c))
+			}
+			// run sends one request under this mode; for a (ctx, err) mode it
+			// first sends the same request under the (nil, err) twin and demands
+			// the same answer byte for byte.
+			run := func(label string, ex0 *wf.Exchange) {
+				hdr := ex0.Header
+				if len(md.Extra) > 0 {
+					hdr = hdr.Clone()
+					if hdr == nil {
+						hdr = http.Header{}
+					}
+					for k, v := range md.Extra {
+						hdr[k] = v
+					}
+				}
+				var ref *wf.Exchange
+				if md.WithCtx {
+					curIdent = identFor(label)
+					u.current = twinAuth
+					ref = wf.Do(u.h, ex0.Method, ex0.Path, hdr, ex0.Body)
+				}
+				u.current = auth
+				ex := wf.Do(u.h, ex0.Method, ex0.Path, hdr, ex0.Body)
+				u.judge(r, md, label, ex)
+				if !md.WithCtx || exemptWhy(c, ex.Method, ex.Path) != "" {
+					return
+				}
+				r.Class("ctx-reject:body-compared")
+				r.Class(fmt.Sprintf("ctx-reject:%d", md.Status))
+				r.Class("ctx-reject:via-" + md.Via)
+				r.Class("ctx-reject:prefix:" + c.Prefix)
+				if curIdent == anon {
+					r.Class("ctx-reject:ident-anonymous")
+				} else {
+					r.Class("ctx-reject:ident-authenticated")
+				}
+				if i := strings.IndexByte(label, ':'); i >= 0 {
+					r.Class("ctx-reject-route:" + label[i+1:])
+				}
+				if len(ex.SvcKinds) == 0 && (ex.Status != ref.Status || string(ex.RBody) != string(ref.RBody)) {
+					r.Violation(fmt.Sprintf("rejection-answer-depends-on-returned-ctx:%s:%d", routeShape(c, ex.Method, ex.Path), md.Status),
+						fmt.Sprintf("%s: authenticator returned (ctx, err) [%s]; answer %d/%d bytes, the same error with a nil ctx gives %d/%d bytes — extra output after the rejection",
+							template(c, ex.Method, ex.Path), md.Name, ex.Status, len(ex.RBody), ref.Status, len(ref.RBody)),
+						map[string]any{"config": c, "rejection_mode": md.Name, "twin_mode": ms[md.Twin].Name, "request": ex, "label": label,
+							"response_body": string(trunc(ex.RBody, 600)), "twin_response_body": string(trunc(ref.RBody, 600))})
+				}
+			}
+			for _, h := range hv {
+				run(h.Label, h.Ex)
+			}
+			// Full enumeration under a rotating subset of modes per configuration
+			// (every mode meets every probe across configurations); the first
+			// three configurations take every (nil, err) and every direct
+			// (ctx, err) mode.
+			if (ci < 3 && (!md.WithCtx || md.Via == "direct")) || mi%12 == ci%12 {
 				for _, p := range probes {
-					u.judge(r, md, "probe", wf.Do(u.h, p.Method, p.Target, p.Header, p.Body))
+					run("probe", &wf.Exchange{Method: p.Method, Path: p.Target, Header: p.Header, Body: p.Body})
 				}
 			}
 		}
